@@ -171,9 +171,17 @@ where
         //= type=implication
         //# A
         //# client MUST send only a single request on a given stream.
-        let mut stream = future::poll_fn(|cx| self.open.poll_open_bidi(cx))
-            .await
-            .map_err(|e| self.handle_quic_stream_error(e))?;
+        let mut stream = future::poll_fn(|cx| {
+            // The wait for a stream can be long: a GOAWAY which was processed in the meantime
+            // forbids to start the request.
+            if let Some(error) = self.check_peer_connection_closing() {
+                return Poll::Ready(Err(error));
+            }
+            self.open
+                .poll_open_bidi(cx)
+                .map_err(|e| self.handle_quic_stream_error(e))
+        })
+        .await?;
 
         //= https://www.rfc-editor.org/rfc/rfc9114#section-4.2
         //= type=TODO
